@@ -55,6 +55,7 @@ def apply(cfg, summaries=None, drop=()):
     cfg.scope_keys |= SCOPE_KEYS
     cfg.frame_keys |= FRAME_KEYS
     cfg.scope_key_types.update(SCOPE_KEY_TYPES)
+    cfg.optional_attrs.add('get_message')       # GlomError subclasses may or may not define it (GlomError.__str__ probes for it)
     for k, v in (summaries if summaries is not None else SUMMARIES).items():
         if k not in drop:
             cfg.summaries[k] = v
